@@ -3,6 +3,7 @@ package rules
 import (
 	"fmt"
 	"go/ast"
+	"go/token"
 	"go/types"
 	"regexp"
 	"sort"
@@ -644,28 +645,50 @@ func classDashN(c *Ctx, rule string) {
 	if cp == nil || cp.extract == nil {
 		return
 	}
-	rs, ok := cp.extract.(*ast.RangeStmt)
-	if !ok {
-		r.Unk(rule, "G.ast.CharClassMatcher.parse:dash-opens-a-range-only-between-members", "", g.Where(cp.extract.Pos()), "the extraction loop is not a range loop over the member list")
+	paths, names := c.astNorm().normBlockNamed(cp.extractFd, cp.extBody)
+	named := func(e ast.Expr) string {
+		if id, isId := e.(*ast.Ident); isId && names[id.Name] != "" {
+			return names[id.Name]
+		}
+		return nospace(e)
+	}
+	// the list walked and the position in it: a range loop (position #1) or an index loop `for i := …; i < len(L); i++`
+	list, idx := "", ""
+	switch x := cp.extract.(type) {
+	case *ast.RangeStmt:
+		list, idx = named(x.X), "#1"
+	case *ast.ForStmt:
+		if be, ok := x.Cond.(*ast.BinaryExpr); ok && be.Op == token.LSS {
+			if ce, ok := be.Y.(*ast.CallExpr); ok && callName(ce) == "len" && len(ce.Args) == 1 {
+				// the counter of such a loop is the position #1 in the normal form, as for a range loop
+				list, idx = named(ce.Args[0]), "#1"
+			}
+		}
+	}
+	if list == "" || idx == "" {
+		r.Unk(rule, "G.ast.CharClassMatcher.parse:dash-opens-a-range-only-between-members", "", g.Where(cp.extract.Pos()), "the extraction loop is neither a range loop over the member list nor an index loop bounded by its length")
 		return
 	}
-	paths, names := c.astNorm().normBlockNamed(cp.extractFd, cp.extBody)
-	list := nospace(rs.X)
-	if id, isId := rs.X.(*ast.Ident); isId && names[id.Name] != "" {
-		list = names[id.Name]
-	}
-	elem := list + "[#1]"
-	notLast := map[string]bool{"#1<len(" + list + ")-1": true, "#1+1<len(" + list + ")": true, "#1!=len(" + list + ")-1": true, "#1+1!=len(" + list + ")": true}
+	elem := list + "[" + idx + "]"
+	notLast := map[string]bool{idx + "<len(" + list + ")-1": true, idx + "+1<len(" + list + ")": true, idx + "!=len(" + list + ")-1": true, idx + "+1!=len(" + list + ")": true}
 	var bad []string
 	n := 0
 	for _, p := range paths {
 		// a path that opens a range: it moves the last plain member into the range list
-		opens := false
+		// (it appends to the range list and takes the last plain member back out of the plain list)
+		appends, shortens := false, false
 		for _, e := range p {
-			if e.Kind == "set" && strings.HasPrefix(e.Text, cp.extRanges+"=append(") && strings.Contains(e.Text, cp.extChars+"[len("+cp.extChars+")-1]") {
-				opens = true
+			if e.Kind != "set" {
+				continue
+			}
+			if strings.HasPrefix(e.Text, cp.extRanges+"=append(") {
+				appends = true
+			}
+			if strings.HasPrefix(e.Text, cp.extChars+"="+cp.extChars+"[:") {
+				shortens = true
 			}
 		}
+		opens := appends && shortens
 		if !opens {
 			continue
 		}
@@ -681,7 +704,7 @@ func classDashN(c *Ctx, rule string) {
 				some = true
 			case strings.HasPrefix(f, "$") || strings.HasPrefix(f, "!$"):
 				// the state flags of the loop (inside a range, just closed a range)
-			case strings.HasPrefix(f, "#1<") || strings.HasPrefix(f, "#1+1<") || strings.HasPrefix(f, "#1!=") || strings.HasPrefix(f, "#1+1!="):
+			case strings.HasPrefix(f, idx+"<") || strings.HasPrefix(f, idx+"+1<") || strings.HasPrefix(f, idx+"!=") || strings.HasPrefix(f, idx+"+1!="):
 				bad = append(bad, "a range is opened under `"+f+"`: the last-position test of a dash must be taken against the list being walked ("+list+"), whose elements are the decoded members")
 			default:
 				bad = append(bad, "a range is opened under the further condition `"+f+"`")
